@@ -1,7 +1,8 @@
 //! Guard-paged buffers: a slice placed flush against a PROT_NONE page, either at its end
 //! (an over-read/over-write of even one element faults) or at its start (an under-read faults).
 //! The payload pages can additionally be made read-only.
-use std::marker::PhantomData;
+//! Arenas are reused between calls (the slice is re-positioned against the guard page), so that the
+//! cost per call is a copy, not an mmap.
 
 const PAGE: usize = 4096;
 
@@ -11,118 +12,78 @@ pub enum Align {
     Start,
 }
 
-pub struct GuardBuf<T: Copy> {
+pub struct Arena {
     base: *mut u8,
     total: usize,
-    data: *mut T,
-    len: usize,
     payload: *mut u8,
     payload_len: usize,
-    _p: PhantomData<T>,
 }
-unsafe impl<T: Copy + Send> Send for GuardBuf<T> {}
 
-impl<T: Copy> GuardBuf<T> {
-    pub fn new(len: usize, align: Align, fill: T) -> Self {
-        let bytes = len * std::mem::size_of::<T>();
-        let payload_len = ((bytes + PAGE - 1) / PAGE).max(1) * PAGE;
+impl Arena {
+    pub const fn empty() -> Arena {
+        Arena { base: std::ptr::null_mut(), total: 0, payload: std::ptr::null_mut(), payload_len: 0 }
+    }
+    fn release(&mut self) {
+        if !self.base.is_null() {
+            unsafe {
+                libc::munmap(self.base as *mut _, self.total);
+            }
+            self.base = std::ptr::null_mut();
+            self.payload_len = 0;
+        }
+    }
+    fn ensure(&mut self, bytes: usize) {
+        if !self.base.is_null() && self.payload_len >= bytes.max(1) {
+            return;
+        }
+        self.release();
+        let want = bytes.max(PAGE) * 2; // grow geometrically
+        let payload_len = ((want + PAGE - 1) / PAGE) * PAGE;
         let total = payload_len + 2 * PAGE;
         unsafe {
-            let base = libc::mmap(
-                std::ptr::null_mut(),
-                total,
-                libc::PROT_NONE,
-                libc::MAP_PRIVATE | libc::MAP_ANONYMOUS,
-                -1,
-                0,
-            );
+            let base = libc::mmap(std::ptr::null_mut(), total, libc::PROT_NONE, libc::MAP_PRIVATE | libc::MAP_ANONYMOUS, -1, 0);
             assert!(base != libc::MAP_FAILED, "mmap failed");
             let base = base as *mut u8;
             let payload = base.add(PAGE);
             let rc = libc::mprotect(payload as *mut _, payload_len, libc::PROT_READ | libc::PROT_WRITE);
             assert_eq!(rc, 0);
-            let data = match align {
-                Align::End => payload.add(payload_len - bytes),
-                Align::Start => payload,
-            } as *mut T;
-            assert_eq!(data as usize % std::mem::align_of::<T>(), 0);
-            for i in 0..len {
-                data.add(i).write(fill);
-            }
-            GuardBuf {
-                base,
-                total,
-                data,
-                len,
-                payload,
-                payload_len,
-                _p: PhantomData,
-            }
+            self.base = base;
+            self.total = total;
+            self.payload = payload;
+            self.payload_len = payload_len;
         }
     }
-    pub fn from_slice(src: &[T], align: Align) -> Self {
-        let mut b = if src.is_empty() {
-            // no fill value available; create empty
-            unsafe { Self::new_uninit(0, align) }
-        } else {
-            Self::new(src.len(), align, src[0])
-        };
-        b.as_mut_slice().copy_from_slice(src);
-        b
-    }
-    unsafe fn new_uninit(len: usize, align: Align) -> Self {
-        assert_eq!(len, 0);
-        let payload_len = PAGE;
-        let total = payload_len + 2 * PAGE;
-        let base = libc::mmap(
-            std::ptr::null_mut(),
-            total,
-            libc::PROT_NONE,
-            libc::MAP_PRIVATE | libc::MAP_ANONYMOUS,
-            -1,
-            0,
-        );
-        assert!(base != libc::MAP_FAILED);
-        let base = base as *mut u8;
-        let payload = base.add(PAGE);
-        libc::mprotect(payload as *mut _, payload_len, libc::PROT_READ | libc::PROT_WRITE);
-        let data = match align {
-            Align::End => payload.add(payload_len),
-            Align::Start => payload,
-        } as *mut T;
-        GuardBuf {
-            base,
-            total,
-            data,
-            len: 0,
-            payload,
-            payload_len,
-            _p: PhantomData,
-        }
-    }
-    pub fn as_slice(&self) -> &[T] {
-        unsafe { std::slice::from_raw_parts(self.data, self.len) }
-    }
-    pub fn as_mut_slice(&mut self) -> &mut [T] {
-        unsafe { std::slice::from_raw_parts_mut(self.data, self.len) }
-    }
-    /// make the payload read-only (writes fault) or writable again
-    pub fn set_readonly(&mut self, ro: bool) {
+    /// a slice of `src.len()` elements flush against the guard page, initialised from `src`
+    pub fn place<T: Copy>(&mut self, src: &[T], align: Align) -> *mut T {
+        let bytes = std::mem::size_of_val(src);
+        self.ensure(bytes);
         unsafe {
-            let prot = if ro {
-                libc::PROT_READ
-            } else {
-                libc::PROT_READ | libc::PROT_WRITE
-            };
+            let p = match align {
+                Align::End => self.payload.add(self.payload_len - bytes),
+                Align::Start => self.payload,
+            } as *mut T;
+            assert_eq!(p as usize % std::mem::align_of::<T>(), 0);
+            std::ptr::copy_nonoverlapping(src.as_ptr(), p, src.len());
+            p
+        }
+    }
+    pub fn set_readonly(&mut self, ro: bool) {
+        if self.base.is_null() {
+            return;
+        }
+        unsafe {
+            let prot = if ro { libc::PROT_READ } else { libc::PROT_READ | libc::PROT_WRITE };
             let rc = libc::mprotect(self.payload as *mut _, self.payload_len, prot);
             assert_eq!(rc, 0);
         }
     }
 }
-impl<T: Copy> Drop for GuardBuf<T> {
+impl Drop for Arena {
     fn drop(&mut self) {
-        unsafe {
-            libc::munmap(self.base as *mut _, self.total);
-        }
+        self.release();
     }
+}
+
+thread_local! {
+    pub static ARENAS: std::cell::RefCell<[Arena; 3]> = std::cell::RefCell::new([Arena::empty(), Arena::empty(), Arena::empty()]);
 }
